@@ -8,10 +8,15 @@ the kernel never overwrites an unreaped completion), plus ghost lists of what ea
 and read.
 
 u32 values are `Nat`s below `W = 2^32`.  Rust arithmetic is modelled as written:
-`Code.fixed` is the code as it is now (`wrapping_add`/`wrapping_sub`, emptiness test `tail == head`);
+`Code.fixed` is the code as it is now (`wrapping_add`/`wrapping_sub`, emptiness test `tail == head`,
+and `get_next_cqe` gives the slot of the entry it returned back to the kernel only on the NEXT call:
+`release_pending`);
+`Code.eagerRelease` is the code before that last repair (/repo bc63d9e): `get_next_cqe` advanced the
+shared completion head BEFORE returning the reference to the entry;
 `Code.orig release` is the code before the C17 repairs (plain `+`/`-`: overflow panics in a debug
-build and wraps in a release build; emptiness test `tail <= head`), kept for the witnesses in
-Props/C17.lean that show the repairs were necessary.
+build and wraps in a release build; emptiness test `tail <= head`; eager release).  The two old
+versions are kept for the witnesses in Props/C17.lean and Props/C18.lean that show the repairs were
+necessary.
 -/
 namespace TinyVerif.Ring
 
@@ -20,6 +25,7 @@ abbrev W : Nat := 4294967296
 /-- which version of the three methods is modelled -/
 inductive Code where
   | orig (release : Bool)
+  | eagerRelease
   | fixed
   deriving DecidableEq, Repr
 
@@ -27,6 +33,7 @@ inductive Code where
 def addU32 (cd : Code) (a b : Nat) : Option Nat :=
   match cd with
   | .fixed => some ((a + b) % W)
+  | .eagerRelease => some ((a + b) % W)
   | .orig release =>
     if a + b < W then some (a + b) else if release then some ((a + b) % W) else none
 
@@ -35,6 +42,7 @@ def addU32 (cd : Code) (a b : Nat) : Option Nat :=
 def subU32 (cd : Code) (a b : Nat) : Option Nat :=
   match cd with
   | .fixed => some ((W + a - b) % W)
+  | .eagerRelease => some ((W + a - b) % W)
   | .orig release =>
     if b ≤ a then some (a - b) else if release then some ((W + a - b) % W) else none
 
@@ -42,6 +50,7 @@ def subU32 (cd : Code) (a b : Nat) : Option Nat :=
 def cqEmptyTest (cd : Code) (tail head : Nat) : Bool :=
   match cd with
   | .fixed => tail == head
+  | .eagerRelease => tail == head
   | .orig _ => decide (tail ≤ head)
 
 /-- a ring entry as seen by the ghost state: which slot (index into the entry array, in units of
@@ -67,6 +76,8 @@ structure St where
   sqKTail : Nat
   cqKHead : Nat
   cqKTail : Nat
+  /-- `completion_queue.release_pending`: the entry last returned by `get_next_cqe` still occupies its slot -/
+  relPending : Bool
   /-- entry arrays: index ↦ stamp -/
   sqMem : Nat → Nat
   cqMem : Nat → Nat
@@ -116,14 +127,30 @@ def flushSubmissionQueue (cd : Code) (s : St) : Res Nat :=
   | none => .panic s1
   | some n => .ok s1 n
 
-/-- `IoUring::get_next_cqe`: returns the index of the entry whose reference is handed out -/
-def getNextCqe (cd : Code) (s : St) : Res (Option Nat) :=
+/-- `get_next_cqe` before /repo bc63d9e: the shared head is advanced before the reference is returned -/
+def getNextCqeEager (cd : Code) (s : St) : Res (Option Nat) :=
   let tail := s.cqKTail
   let head := s.cqKHead
   if cqEmptyTest cd tail head then .ok s none
   else
     let ind := index head s.cqMask (cqShift s)
     .ok { s with cqKHead := (head + 1) % W } (some ind)   -- fetch_add(1) wraps
+
+/-- `IoUring::get_next_cqe`: returns the index of the entry whose reference is handed out.  Current code: first
+the slot handed out by the previous call is released (`if release_pending { release_pending = false; advance(1) }`),
+then tail/head are loaded; on a non-empty ring `release_pending = true` and the head is NOT advanced. -/
+def getNextCqe (cd : Code) (s : St) : Res (Option Nat) :=
+  match cd with
+  | .fixed =>
+    let s0 := if s.relPending then { s with relPending := false, cqKHead := (s.cqKHead + 1) % W } else s
+    let tail := s0.cqKTail
+    let head := s0.cqKHead
+    if tail == head then .ok s0 none
+    else
+      let ind := index head s0.cqMask (cqShift s0)
+      .ok { s0 with relPending := true } (some ind)
+  | .eagerRelease => getNextCqeEager .eagerRelease s
+  | .orig r => getNextCqeEager (.orig r) s
 
 /-- kernel: take one published submission (io_uring: `head != tail`, entry `head & mask`) -/
 def kConsume1 (s : St) : St × Option Ent :=
@@ -167,6 +194,9 @@ inductive Op where
   | flush
   /-- application: `get_next_cqe` and read the returned entry -/
   | reap
+  /-- application: read once more through the reference the last successful `get_next_cqe` returned (below call
+  granularity: the read may come after any number of kernel steps) -/
+  | reread
   /-- kernel: consume up to `k` published submissions -/
   | consume (k : Nat)
   /-- kernel: post completions with these stamps while there is room -/
@@ -200,6 +230,10 @@ def step (cd : Code) (s : St) : Op → St × Out
     | .panic s1 => (s1, .panic)
     | .ok s1 none => (s1, .noCqe)
     | .ok s1 (some i) => ({ s1 with reaped := s1.reaped ++ [⟨i, s1.cqMem i⟩] }, .cqe (s1.cqMem i))
+  | .reread =>
+    match s.reaped.getLast? with
+    | none => (s, .noCqe)
+    | some e => (s, .cqe (s.cqMem e.slot))
   | .consume k => let r := kConsume k s; (r.1, .consumed r.2)
   | .post vs => let r := kPost vs s; (r.1, .posted r.2)
 
@@ -214,7 +248,7 @@ def run (cd : Code) : St → List Op → St × List Out
 `c`, every completion counter at `cc` -/
 def init (flags k kc c cc : Nat) : St :=
   { flags := flags, sqEntries := 2 ^ k, sqMask := 2 ^ k - 1, cqEntries := 2 ^ kc, cqMask := 2 ^ kc - 1,
-    head := c, tail := c, sqKHead := c, sqKTail := c, cqKHead := cc, cqKTail := cc,
+    head := c, tail := c, sqKHead := c, sqKTail := c, cqKHead := cc, cqKTail := cc, relPending := false,
     sqMem := fun _ => 0, cqMem := fun _ => 0,
     filled := [], flushed := [], consumed := [], posted := [], reaped := [] }
 
@@ -419,17 +453,19 @@ def expWord (K : Kern) (ents : List Ent) (deps : List (Option Nat)) (q : Nat) : 
 
 /-! ### below call granularity: the reference `get_next_cqe` returns
 
-`get_next_cqe` advances the shared completion head (`fetch_add`, Release) BEFORE it returns the reference to the
-entry, i.e. the slot is handed back to the kernel while the caller has not read it yet.  `reap` above reads at
-return time (call granularity, as C17 quantifies).  Here the call is split: `reapBegin` = the call returns (head
-advanced, reference held), `reapRead` = the caller reads through the reference; kernel steps may come in
-between (the borrow checker stops the application from touching the ring while it holds the reference, not the
-kernel). -/
+`reap` above reads the entry at the moment `get_next_cqe` returns (call granularity, as C17 quantifies).  Here the
+call is split: `reapBegin` = the call returns (the ghost `reaped` records the entry as it is at that moment; the
+application holds the reference), `reapRead` = the caller reads through the reference, into `readLog`; kernel steps
+may come in between (the borrow checker stops the application from touching the ring while it holds the reference,
+not the kernel).  With the code before /repo bc63d9e (`Code.eagerRelease`) the head was already advanced when the
+reference was returned; now the slot is released by the NEXT `get_next_cqe` call. -/
 
 structure KSt2 where
   k : KSt
   /-- index of the completion entry the application holds a reference to -/
   held : Option Nat
+  /-- ghost: what the application actually read through the references, in order -/
+  readLog : List Ent
 
 inductive KOp2 where
   | k (op : KOp)
@@ -445,25 +481,35 @@ def KOp.isApp : KOp → Bool
   | .wake => true
   | _ => false
 
+def kReapBegin (cd : Code) (s : KSt2) : KSt2 × KOut :=
+  match s.held with
+  | some _ => (s, .borrowed)
+  | none =>
+    match getNextCqe cd s.k.ring with
+    | .panic r1 => ({ s with k := { s.k with ring := r1 } }, .app .panic)
+    | .ok r1 none => ({ s with k := { s.k with ring := r1 } }, .app .noCqe)
+    | .ok r1 (some i) =>
+      ({ s with k := { s.k with ring := { r1 with reaped := r1.reaped ++ [⟨i, r1.cqMem i⟩] } }, held := some i }, .held i)
+
+def kReapRead (s : KSt2) : KSt2 × KOut :=
+  match s.held with
+  | none => (s, .borrowed)
+  | some i =>
+    ({ s with held := none, readLog := s.readLog ++ [⟨i, s.k.ring.cqMem i⟩] }, .app (.cqe (s.k.ring.cqMem i)))
+
 def kstep2 (K : Kern) (cd : Code) (s : KSt2) : KOp2 → KSt2 × KOut
   | .k op =>
     if s.held.isSome && op.isApp then (s, .borrowed)
-    else let r := kstep K cd s.k op; ({ s with k := r.1 }, r.2)
-  | .reapBegin =>
-    match s.held with
-    | some _ => (s, .borrowed)
-    | none =>
-      match getNextCqe cd s.k.ring with
-      | .panic r1 => ({ s with k := { s.k with ring := r1 } }, .app .panic)
-      | .ok r1 none => ({ s with k := { s.k with ring := r1 } }, .app .noCqe)
-      | .ok r1 (some i) => ({ k := { s.k with ring := r1 }, held := some i }, .held i)
-  | .reapRead =>
-    match s.held with
-    | none => (s, .borrowed)
-    | some i =>
-      let r := s.k.ring
-      ({ k := { s.k with ring := { r with reaped := r.reaped ++ [⟨i, r.cqMem i⟩] } }, held := none },
-       .app (.cqe (r.cqMem i)))
+    else
+      match op with
+      | .reap =>                        -- the atomic reap: the call returns and the entry is read at once
+        let b := kReapBegin cd s
+        match b.2 with
+        | .held _ => kReapRead b.1
+        | o => (b.1, o)
+      | op => let r := kstep K cd s.k op; ({ s with k := r.1 }, r.2)
+  | .reapBegin => kReapBegin cd s
+  | .reapRead => kReapRead s
 
 def krun2 (K : Kern) (cd : Code) : KSt2 → List KOp2 → KSt2 × List KOut
   | s, [] => (s, [])
@@ -471,6 +517,8 @@ def krun2 (K : Kern) (cd : Code) : KSt2 → List KOp2 → KSt2 × List KOut
     let r := kstep2 K cd s op
     let q := krun2 K cd r.1 ops
     (q.1, r.2 :: q.2)
+
+def kinit2 (flags k kc c cc : Nat) : KSt2 := { k := kinit flags k kc c cc, held := none, readLog := [] }
 
 /-- the content of a submission entry as the simulated kernel of harness/c18 reads it: `user_data: u64`,
 `flags: u8`, `len: u32` (every other field zero) -/
